@@ -6,4 +6,3 @@ import PhyModel.Proofs.OrdersProofs6
 import PhyModel.Proofs.MapProofs
 import PhyModel.Proofs.CacheProofs
 import PhyModel.Props.C02
-import PhyModel.Props.C18
